@@ -156,7 +156,7 @@ def enc_result(res):
                                          enc_names(res.get('names_col')))
 
 
-ERRORS = (ValueError, IndexError, TypeError, KeyError)
+ERRORS = (ValueError, IndexError, TypeError, KeyError, AttributeError)
 
 
 def call(f):
@@ -853,7 +853,18 @@ def gen_csv_cases(ctx, out, earlies):
         elif rng.random() < 0.5:
             args['data_structure'] = 'adjacency_list'
         fl = rand_flags(rng)
-        c, e = csv_case(text, header + lines, args, fl, None, tag())
+        # the graph expected: the (node, neighbour) pairs -- unless the layout is guessed and every non-blank row
+        # has two (or three) fields, which the code documents as an edge list
+        nonblank = [r for r in ([[i] + r for i, r in enumerate(adj)] if as_dict else adj) if r]
+        if as_dict:
+            edges = [(str(i), str(j), None) for i, r in enumerate(adj) for j in r]
+        elif 'data_structure' not in args and nonblank and all(len(r) == 2 for r in nonblank):
+            edges = [(str(r[0]), str(r[1]), None) for r in nonblank]
+        elif 'data_structure' not in args and nonblank and all(len(r) == 3 for r in nonblank):
+            edges = [(str(r[0]), str(r[1]), Fraction(r[2])) for r in nonblank]
+        else:
+            edges = [(i, str(j), None) for i, r in enumerate(adj) for j in r]
+        c, e = csv_case(text, header + lines, args, fl, edges if edges else None, tag())
         out.append(c)
         earlies.append((c, e))
         ctx.count('csv-layout:' + (args.get('data_structure') or 'guessed'))
@@ -902,6 +913,32 @@ def gen_csv_cases(ctx, out, earlies):
     c, e = csv_case(text, None, {}, mkflags(directed=True), None, tag())
     out.append(c)
     earlies.append((c, None))
+    # a second candidate delimiter occurs inside the names (ordinary CSV: "New York,Boston"), not equally often in
+    # every row: the separator is still the only consistent candidate
+    for _ in range(60 if quick else 800):
+        d = rng.choice([',', ';', '\t'])
+        inner = rng.choice([' ', ' ', ';' if d != ';' else ','])
+        words = ['New', 'York', 'Los', 'Angeles', 'Rome', 'Oslo', 'a', 'B2']
+
+        def name(k):
+            return inner.join(rng.choice(words) for _ in range(k + 1))
+        k = rng.randint(2, 5)
+        counts = [rng.randint(0, 2) for _ in range(k)]
+        if len(set(counts)) == 1:
+            counts[0] = (counts[0] + 1) % 3          # not the same number of inner characters in every row
+        wm = rng.choice(['none', 'small'])
+        edges = []
+        for cnt in counts:
+            ka = rng.randint(0, cnt)
+            edges.append((name(ka), name(cnt - ka), None if wm == 'none' else rng.choice(WEIGHTS[:3])))
+        rows = [[a, b] if w is None else [a, b, fmt_w(w)] for a, b, w in edges]
+        text, _ = csv_text(rows, d, rng.choice([[], ['# cities']]), rng.random() < 0.7)
+        args = {} if rng.random() < 0.6 else {'delimiter': d}
+        c, e = csv_case(text, None, args, rand_flags(rng), edges, tag())
+        c.sig['rows_layout'] = 'second-candidate-inside'
+        out.append(c)
+        earlies.append((c, e))
+        ctx.count('csv-second-candidate-inside')
     # two candidate delimiters are consistent (the repo's own test file 'f, e, 5'): the tie rule of the inference
     for _ in range(40 if quick else 400):
         d2 = rng.choice([', ', '; ', ',\t', ' ,', ';;', ', ;'])
